@@ -10,6 +10,7 @@
  *   vec op=<routine> x=<hex> [y=<hex>] [s=<bits>] [n=<int>] -> ok <scalar bits | hex vector | integer | status>
  *   sweep f=<logf|expf> lo=<u32> hi=<u32>       -> ok n=.. maxulp=.. worst=.. bad=.. first_bad=.. (C only; exhaustive tier)
  */
+#include "esl_vectorops.c"   /* first: gives access to the static qsort comparators (the linker then keeps this copy of the esl_vec_* functions) */
 #include "hcommon.h"
 #include <math.h>
 #include <float.h>
@@ -566,6 +567,19 @@ static void op_mat(void)
   h_out("bad-op"); free(xb);
 }
 
+/* the comparators handed to qsort(): the C standard only promises a sorted result if they return <0, 0, >0 consistently */
+static void op_cmp(void)
+{
+  const char *op = h_arg("op"); int r = 0; uint64_t ua = strtoull(h_arg("a") ? h_arg("a") : "0", NULL, 16), ub = strtoull(h_arg("b") ? h_arg("b") : "0", NULL, 16);
+  if (!op) { h_out("bad-op"); return; }
+  if (op[0] == 'D') { double a, b; memcpy(&a, &ua, 8); memcpy(&b, &ub, 8); r = !strcmp(op + 1, "Increasing") ? qsort_DIncreasing(&a, &b) : qsort_DDecreasing(&a, &b); }
+  else if (op[0] == 'F') { float a, b; uint32_t wa = (uint32_t) ua, wb = (uint32_t) ub; memcpy(&a, &wa, 4); memcpy(&b, &wb, 4); r = !strcmp(op + 1, "Increasing") ? qsort_FIncreasing(&a, &b) : qsort_FDecreasing(&a, &b); }
+  else if (op[0] == 'I') { int a = (int)(int32_t)(uint32_t) ua, b = (int)(int32_t)(uint32_t) ub; r = !strcmp(op + 1, "Increasing") ? qsort_IIncreasing(&a, &b) : qsort_IDecreasing(&a, &b); }
+  else if (op[0] == 'L') { int64_t a = (int64_t) ua, b = (int64_t) ub; r = !strcmp(op + 1, "Increasing") ? qsort_LIncreasing(&a, &b) : qsort_LDecreasing(&a, &b); }
+  else { h_out("bad-op"); return; }
+  h_out("ok %d", r < 0 ? -1 : r > 0 ? 1 : 0);
+}
+
 static void h_op(void)
 {
   const char *op = h_words[0];
@@ -578,6 +592,7 @@ static void h_op(void)
   else if (!strcmp(op, "sweep")) op_sweep();
   else if (!strcmp(op, "vec"))   op_vec();
   else if (!strcmp(op, "mat"))   op_mat();
+  else if (!strcmp(op, "cmp"))   op_cmp();
   else h_out("bad-op");
 }
 
